@@ -340,6 +340,11 @@ class Run:
         nvc = 0
         for ob, r in zip(obs, res):
             self.solver_time += r.get("time_s", 0.0)
+            if r.get("time_s", 0.0) > 2.0:
+                # slow queries are the unstable ones: recorded so that they can be split or given hints
+                self.extra.setdefault("slow_obligations", []).append(
+                    {"obligation": getattr(ob, "key", str(ob))[:200], "seconds": round(r["time_s"], 1),
+                     "verdict": r.get("verdict"), "backend": r.get("backend", "z3")})
             if ob.kind == "canary":
                 canaries[r["verdict"]] += 1
                 continue
